@@ -22,7 +22,8 @@ package payload
 //@   modifies clock
 
 //@ func (*Bin).IsFull
-//@   ensures definition: result == (bin.capacity - bin.bytes < 0 || bin.capacity - bin.bytes < bin.fluff)
+//@   ensures no-space-is-full: bin.fluff >= 0 && bin.bytes >= bin.capacity + bin.fluff ==> result
+//@   ensures room-for-slack-is-not-full: bin.fluff >= 0 && bin.capacity - bin.bytes > 0 && bin.capacity - bin.bytes >= bin.fluff ==> !result
 //@   modifies nothing
 
 //@ func (*Bin).GetSize
@@ -36,6 +37,7 @@ package payload
 //@   on return assert part-is-cursor-step: added ==> len(bin.parts) == old(len(bin.parts)) + 1 && bin.parts[len(bin.parts)-1].beg == lastret(sts.Binnable.GetNextAlloc, 0) && bin.parts[len(bin.parts)-1].beg < bin.parts[len(bin.parts)-1].end && bin.parts[len(bin.parts)-1].end <= lastret(sts.Binnable.GetNextAlloc, 1) && bin.parts[len(bin.parts)-1].end - bin.parts[len(bin.parts)-1].beg <= old(bin.capacity + bin.fluff - bin.bytes) && bin.bytes == old(bin.bytes) + bin.parts[len(bin.parts)-1].end - bin.parts[len(bin.parts)-1].beg && bin.parts[len(bin.parts)-1].Binnable == chunk && called(sts.Binnable.AddAlloc)
 //@   on return assert fills-or-finishes: added ==> bin.parts[len(bin.parts)-1].end == lastret(sts.Binnable.GetNextAlloc, 1) || bin.bytes == bin.capacity + bin.fluff
 //@   on return assert nothing-if-not-added: !added ==> len(bin.parts) == old(len(bin.parts)) && bin.bytes == old(bin.bytes) && !called(sts.Binnable.AddAlloc)
+//@   on return assert refuses-only-when-nothing-fits: !added ==> lastret(sts.Binnable.GetNextAlloc, 1) <= lastret(sts.Binnable.GetNextAlloc, 0) || bin.bytes >= bin.capacity + bin.fluff
 //@   on return assert within-allowance: 0 <= bin.bytes && bin.bytes <= bin.capacity + bin.fluff
 //@   on return assert earlier-parts-kept: forall(k, 0, old(len(bin.parts)), bin.parts[k] == old(bin.parts[k]))
 
